@@ -47,6 +47,16 @@ CLAIMED.update({
         ref="DESIGN.md 3/C16"),
 })
 
+CLAIMED.update({
+    "C06": dict(
+        text="Proof on the real Alias.resolve_target/_resolve_target (all-or-nothing: target untouched on failure, passed-through flag restored on every exit, "
+             "only AliasResolutionError/CyclicAliasError escape, caller marked before recursing = variant), Alias.target, Alias.final_target (each iteration inserts "
+             "a fresh key that is the visited alias's path => terminates on finite heaps), Alias.kind/has_docstring never raise, one generic member iteration of "
+             "resolve_module_aliases. Whole-graph clauses (no escape from load/resolve_aliases, fixpoint) are a bounded search over generated import graphs.",
+        note="Modular recursion (callee contract assumed at the recursive call); finite heap; exception constructors by contract. Fixed: C06-G2/G3/G4; known: C06-G1, C06-G5.",
+        ref="DESIGN.md 3/C06"),
+})
+
 NA_REASON = {
     "C17": "relates two whole-program analyses through CPython's run-time object model; a contract for the inspector would have to assume the very "
            "object model the property compares against, so no obligation over /repo code alone implies agreement (DESIGN.md section 4)",
